@@ -222,6 +222,54 @@ func (m *miniEval) exec(list []ast.Stmt) bool {
 			if m.exec(s.List) {
 				return true
 			}
+		case *ast.SwitchStmt:
+			// tagless switch = if/else-if chain
+			if s.Tag != nil || s.Init != nil {
+				if m.lax && !hasReturn(st) {
+					m.collectCalls(st, &m.tr.calls)
+					continue
+				}
+				m.tr.why = "switch with a tag not folded"
+				return true
+			}
+			var chosen *ast.CaseClause
+			var deflt *ast.CaseClause
+			undecided := false
+			for _, cs := range s.Body.List {
+				cc := cs.(*ast.CaseClause)
+				if cc.List == nil {
+					deflt = cc
+					continue
+				}
+				for _, e := range cc.List {
+					cv := m.eval(e)
+					if cv == nil || cv.Kind() != constant.Bool {
+						undecided = true
+						break
+					}
+					if constant.BoolVal(cv) {
+						chosen = cc
+						break
+					}
+				}
+				if chosen != nil || undecided {
+					break
+				}
+			}
+			if undecided {
+				if m.lax && !hasReturn(st) {
+					m.collectCalls(st, &m.tr.calls)
+					continue
+				}
+				m.tr.why = "switch condition not decided by the subject"
+				return true
+			}
+			if chosen == nil {
+				chosen = deflt
+			}
+			if chosen != nil && m.exec(chosen.Body) {
+				return true
+			}
 		default:
 			if m.lax && !hasReturn(st) {
 				m.collectCalls(st, &m.tr.calls)
